@@ -86,6 +86,40 @@ theorem C16_holdsOn_partial (ops : List Op) (hok : OpsOK ops = true) :
     holdsOn (run none ops) = true :=
   judge_run ops hok none none trivial
 
+/-! ### the two readings of "true of the series" agree -/
+
+/-- Kleene (SQL/Flux null) evaluation: a comparison on an absent tag is unknown -/
+def kleene (name : Bytes) (tags : Tags) : Pred → Option Bool
+  | .rule k neq v => (keyValue name tags k).map fun x => if neq then decide (x ≠ v) else decide (x = v)
+  | .and l r =>
+    match kleene name tags l, kleene name tags r with
+    | some false, _ => some false
+    | _, some false => some false
+    | some true, some true => some true
+    | _, _ => none
+  | .or l r =>
+    match kleene name tags l, kleene name tags r with
+    | some true, _ => some true
+    | _, some true => some true
+    | some false, some false => some false
+    | _, _ => none
+
+/-- with AND/OR only, "true under three-valued evaluation" is `evalPred` -/
+theorem evalPred_eq_kleene (name : Bytes) (tags : Tags) (p : Pred) :
+    evalPred name tags p = (kleene name tags p == some true) := by
+  induction p with
+  | rule k neq v =>
+    simp only [evalPred, kleene]
+    cases keyValue name tags k with
+    | none => rfl
+    | some x => cases neq <;> by_cases h : x = v <;> simp [h]
+  | and l r ihl ihr =>
+    simp only [evalPred, kleene, ihl, ihr]
+    rcases kleene name tags l with _ | _ | _ <;> rcases kleene name tags r with _ | _ | _ <;> rfl
+  | or l r ihl ihr =>
+    simp only [evalPred, kleene, ihl, ihr]
+    rcases kleene name tags l with _ | _ | _ <;> rcases kleene name tags r with _ | _ | _ <;> rfl
+
 /-! ### non-vacuity -/
 
 -- escape-heavy values inside the domain: commas, spaces, `=`, inner backslashes
